@@ -144,6 +144,62 @@ int main(int argc, char** argv) {
         Gen gen(rnd);
         int got[5] = {0}, emitted = 0;
         static const char* names[5] = {"castle", "ep", "promo", "discovered", "double"};
+        // family "ep-rank-discovery": the en-passant capture removes BOTH pawns from the rank between an own rook/queen and the enemy
+        // king; both orders of the two pawns, both colours (constructed, then kept only if the capture really mates)
+        {
+            int want = std::max(4, count / 3), have = 0;
+            for (long tries = 0; tries < 4000000 && have < want; tries++) {
+                int board[64] = {0};
+                bool kingRight = rnd.nextInt(2) == 0;
+                int xk = kingRight ? 7 - rnd.nextInt(2) : rnd.nextInt(2);
+                int xr = kingRight ? rnd.nextInt(3) : 7 - rnd.nextInt(3);
+                int lo = std::min(xk, xr) + 1, hi = std::max(xk, xr) - 1;
+                if (hi - lo < 1) continue;
+                int xa = lo + rnd.nextInt(hi - lo);          // pawns on xa, xa+1
+                bool whiteFirst = rnd.nextInt(2) == 0;      // white pawn on xa?
+                int xw = whiteFirst ? xa : xa + 1, xb = whiteFirst ? xa + 1 : xa;
+                board[4 * 8 + xk] = Piece::BKING;
+                board[4 * 8 + xr] = rnd.nextInt(3) ? Piece::WROOK : Piece::WQUEEN;
+                board[4 * 8 + xw] = Piece::WPAWN;
+                board[4 * 8 + xb] = Piece::BPAWN;
+                static const int extra[] = {Piece::WROOK, Piece::WQUEEN, Piece::WBISHOP, Piece::WKNIGHT, Piece::WROOK, Piece::BPAWN, Piece::BKNIGHT};
+                bool ok = true;
+                auto put = [&](int pc) { for (int t = 0; t < 50; t++) { int sq = rnd.nextInt(64); if (sq / 8 == 4 || board[sq] || (sq / 8 == 5 && sq % 8 == xb) || (sq / 8 == 6 && sq % 8 == xb)) continue;
+                                                                          if ((pc == Piece::BPAWN) && (sq < 8 || sq >= 56)) continue; board[sq] = pc; return; } ok = false; };
+                put(Piece::WKING);
+                for (int k = 1 + rnd.nextInt(3); k > 0; k--) put(extra[rnd.nextInt(7)]);
+                if (!ok) continue;
+                std::string fen;
+                for (int y = 7; y >= 0; y--) {
+                    int e = 0;
+                    for (int x = 0; x < 8; x++) { int pc = board[y * 8 + x]; if (!pc) { e++; continue; } if (e) { fen += std::to_string(e); e = 0; } fen += " KQRBNPkqrbnp"[pc]; }
+                    if (e) fen += std::to_string(e);
+                    if (y) fen += '/';
+                }
+                fen += std::string(" w - ") + (char)('a' + xb) + "6 0 1";
+                bool flip = rnd.nextInt(2) == 0;
+                if (flip) {       // colours swapped, board turned upside down
+                    std::string rows[8]; int ri = 0;
+                    for (char ch : fen.substr(0, fen.find(' '))) { if (ch == '/') ri++; else rows[ri] += (char)(isalpha(ch) ? (isupper(ch) ? tolower(ch) : toupper(ch)) : ch); }
+                    std::string f2;
+                    for (int r = 7; r >= 0; r--) { f2 += rows[r]; if (r) f2 += '/'; }
+                    fen = f2 + " b - " + (char)('a' + xb) + "3 0 1";
+                }
+                Position pos;
+                try { pos = TextIO::readFEN(fen); } catch (const ChessParseError&) { continue; }
+                if (!pos.getEpSquare().isValid()) continue;
+                MoveList ml; legalMoves(pos, ml);
+                for (int i = 0; i < ml.size; i++) {
+                    int pc = pos.getPiece(ml[i].from());
+                    if ((pc != Piece::WPAWN && pc != Piece::BPAWN) || ml[i].to() != pos.getEpSquare()) continue;
+                    UndoInfo ui; pos.makeMove(ml[i], ui);
+                    MoveList rl; legalMoves(pos, rl);
+                    bool mate = rl.size == 0 && MoveGen::inCheck(pos);
+                    pos.unMakeMove(ml[i], ui);
+                    if (mate) { printf("{\"fen\":\"%s\",\"n\":1,\"family\":\"ep-rank-discovery\"}\n", TextIO::toFEN(pos).c_str()); have++; emitted++; break; }
+                }
+            }
+        }
         for (long tries = 0; tries < 3000000 && emitted < count; tries++) {
             RawPos r = gen.gen();
             r.hmc = 0;
